@@ -169,6 +169,15 @@ class SelectContext(Selector):
         self._key = key
         self._predicate = predicate
         self._raise_on_error = bool(raise_on_error)
+        # attributes used by Selector's __eq__ and __repr__
+        # (needed to combine SelectContext with other selectors)
+        self._selector = (key, predicate)
+        self._selector_repr = "SelectContext({!r}, {})".format(
+            key, getattr(predicate, "__name__", repr(predicate))
+        )
+        self._from_callable = False
+        self._orig_class = None
+        self._orig_str = None
 
     def __call__(self, value):
         context = get_context(value)
